@@ -147,7 +147,13 @@ def x2(prog: Program, chk: Check) -> None:
     c = _ctor_kwargs(im, "SimpleProcessTensor")
     if c is None:
         raise AnalysisError("X2: import_process_tensor no longer builds a SimpleProcessTensor")
-    _check_meta(chk, im, c, "pt_file", "import")
+    # the source object: the local bound to FileProcessTensor(mode="read", ...)
+    srcs = {st.targets[0].id for st in walk_local(im.node) if isinstance(st, ast.Assign)
+            and len(st.targets) == 1 and isinstance(st.targets[0], ast.Name)
+            and isinstance(st.value, ast.Call) and call_name(st.value) == "FileProcessTensor"}
+    if len(srcs) != 1:
+        raise AnalysisError("X2: import_process_tensor no longer opens one FileProcessTensor")
+    _check_meta(chk, im, c, next(iter(srcs)), "import")
     du = DefUse(im, CFG(im.node, exc_edges=False))
     chk.saw(im, du.cfg)
     pairs = {"set_initial_tensor": "get_initial_tensor", "set_mpo_tensor": "get_mpo_tensor",
@@ -508,20 +514,24 @@ def x7(prog: Program, chk: Check) -> None:
         if isinstance(st, ast.Assign) and isinstance(st.value, ast.Call) and \
                 (dotted(st.value.func) or "").endswith("vlen_dtype"):
             dts[dotted(st.targets[0])] = norm(st.value.args[0])
-    ok = dts.get("data_type") == "np.dtype('complex128')" and dts.get("shape_type") == "np.dtype('i')"
-    chk.add("X7", cf, f"variable-length types {dts}", ok,
+    # the two variable-length element types, identified by what they hold
+    by_elem = {v: k for k, v in dts.items()}
+    data_t, shape_t = by_elem.get("np.dtype('complex128')"), by_elem.get("np.dtype('i')")
+    ok = data_t is not None and shape_t is not None and len(dts) == 2
+    chk.add("X7", cf, f"variable-length types {sorted(dts.values())}", ok,
             "" if ok else "tensor data are not stored as complex128 / shapes not as integers")
     table = {}
     for c in walk_local(cf.node):
         if isinstance(c, ast.Call) and method_call(c) and method_call(c)[1] == "create_dataset":
             k = c.args[0].value if isinstance(c.args[0], ast.Constant) else "?"
             dt = next((norm(kw.value) for kw in c.keywords if kw.arg == "dtype"), "<none>")
+            dt = {data_t: "<vlen complex128>", shape_t: "<vlen int>"}.get(dt, dt)
             table.setdefault(k, set()).add(dt)
     want = {"hs_dim": {"'i'"}, "dt": {"'float64'"}, "transform_in": {"'complex128'"},
-            "transform_out": {"'complex128'"}, "initial_tensor_data": {"data_type"},
-            "mpo_tensors_data": {"data_type"}, "cap_tensors_data": {"data_type"},
-            "initial_tensor_shape": {"shape_type"}, "mpo_tensors_shape": {"shape_type"},
-            "cap_tensors_shape": {"shape_type"}}
+            "transform_out": {"'complex128'"}, "initial_tensor_data": {"<vlen complex128>"},
+            "mpo_tensors_data": {"<vlen complex128>"}, "cap_tensors_data": {"<vlen complex128>"},
+            "initial_tensor_shape": {"<vlen int>"}, "mpo_tensors_shape": {"<vlen int>"},
+            "cap_tensors_shape": {"<vlen int>"}}
     chk.add("X7", cf, "dataset dtypes", table == want,
             "" if table == want else f"differs for {sorted(k for k in want if table.get(k) != want[k])}")
     casts = []
